@@ -155,6 +155,7 @@ type Worker struct {
 	intrCache  map[*ssa.Function]intrinsic
 	ptrSlices  map[*Value]Slice
 	funcsSeen  map[*ssa.Function]bool
+	fnInfos    map[*ssa.Function]*fnInfo
 	idxSigned  bool
 	depth      int
 	steps      int64
@@ -217,6 +218,7 @@ func (e *Engine) newWorker(id int) (*Worker, error) {
 	w.intrCache = map[*ssa.Function]intrinsic{}
 	w.ptrSlices = map[*Value]Slice{}
 	w.funcsSeen = map[*ssa.Function]bool{}
+	w.fnInfos = map[*ssa.Function]*fnInfo{}
 	w.stubsUsed = map[string]bool{}
 	w.assumes = map[string]bool{}
 	w.rng = rand.New(rand.NewSource(e.Cfg.Seed + int64(id)*7919))
@@ -332,6 +334,9 @@ func (w *Worker) pushSibling(d Decision) {
 func (w *Worker) addPC(t *Term) {
 	w.pc = append(w.pc, t)
 	w.S.Assert(t)
+	if w.S2 != nil {
+		w.S2.Assert(t) // the second solver mirrors the path condition incrementally
+	}
 	if w.model != nil && !w.holdsInModel(t) {
 		w.model = nil
 	}
@@ -643,9 +648,6 @@ func (w *Worker) checkSecond(neg *Term) Result {
 	s := w.S2
 	s.Push()
 	defer s.Pop()
-	for _, t := range w.pc {
-		s.Assert(t)
-	}
 	s.Assert(neg)
 	r, err := s.Check()
 	if err != nil {
@@ -747,6 +749,9 @@ func (w *Worker) runPath(prefix []Decision) {
 	w.resetPath(prefix)
 	if !w.concrete {
 		w.S.Push()
+		if w.S2 != nil {
+			w.S2.Push()
+		}
 	}
 	outcome := "ok"
 	func() {
@@ -818,6 +823,9 @@ func (w *Worker) runPath(prefix []Decision) {
 	}
 	if !w.concrete {
 		w.S.Pop()
+		if w.S2 != nil {
+			w.S2.Pop()
+		}
 	}
 	w.E.mu.Lock()
 	w.E.Stats.Paths++
